@@ -133,8 +133,23 @@ var concModel = porcupine.Model{
 			}
 		case "del":
 			if out.err != "" {
-				// only a set whose minimum lies before the first segment may be refused
-				return out.err == "NotFound", st
+				// only a set whose minimum lies before the first segment may be refused: no live message at or
+				// below the lowest requested offset, and that offset already assigned
+				if out.err != "NotFound" || len(in.offs) == 0 {
+					return false, st
+				}
+				lo := in.offs[0]
+				for _, o := range in.offs {
+					if o < lo {
+						lo = o
+					}
+				}
+				for _, m := range live {
+					if offOf(m) <= lo {
+						return false, st
+					}
+				}
+				return lo < next, st
 			}
 			want := map[int64]bool{}
 			for _, o := range in.offs {
